@@ -82,3 +82,41 @@ def native_fromgeo_rect(arg, values):
             if not (close(c.area, dx[ci % nx] * dy[ci // nx]) and close(c.dircos, -1.) and close(c.distance[0], d0) and close(c.distance[1], geo.atmosphere_connection)):
                 bad.append('atmosphere connection %r distances %r, want %r' % ((n0, n1), c.distance, (d0, geo.atmosphere_connection)))
     return (not bad), '; '.join(bad[:4]) or 'all clauses hold'
+
+
+def native_block_mapping(arg, values):
+    """C19: block_mapping between two real rectangular geometries against an independent nearest-centre computation."""
+    import numpy as np
+    from mulgrids import mulgrid
+    (sshape, satm, snsurf), (tshape, tatm) = arg
+    src = build((sshape[0], sshape[1], sshape[2], satm, 0, snsurf), values)[0]
+    tdx = [_val(values, 'tdx%d' % k, 7. + 2 * k) for k in range(tshape[0])]
+    tdy = [_val(values, 'tdy%d' % k, 9. + k) for k in range(tshape[1])]
+    tdz = [_val(values, 'tdz%d' % k, 6. + k) for k in range(tshape[2])]
+    tgt = mulgrid().rectangular(tdx, tdy, tdz, atmos_type=tatm, origin=[3., -7., _val(values, 'toz', 100.)])
+    try:
+        mp = src.block_mapping(tgt)
+    except Exception as ex:
+        return False, 'block_mapping raises %s: %s' % (type(ex).__name__, ex)
+    bad = []
+    if set(mp) != set(tgt.block_name_list): bad.append('mapped names are not the target blocks')
+    nt = tgt.num_atmosphere_blocks
+    for b in tgt.block_name_list[nt:]:
+        if mp.get(b) not in src.block_name_index: bad.append('target block %r -> %r is not a source block' % (b, mp.get(b))); continue
+        tc, tl = tgt.column[tgt.column_name(b)], tgt.layer[tgt.layer_name(b)]
+        sc, sl = src.column[src.column_name(mp[b])], src.layer[src.layer_name(mp[b])]
+        dmin = min(np.linalg.norm(c.centre - tc.centre) for c in src.columnlist)
+        if np.linalg.norm(sc.centre - tc.centre) > dmin * (1 + 1e-12) + 1e-12: bad.append('target block %r: source column %r is not the nearest' % (b, sc.name))
+        near = min(src.layerlist[1:], key=lambda l: abs(l.centre - tl.centre))
+        if abs(near.centre - tl.centre) < min(abs(l.centre - tl.centre) for l in src.layerlist[1:] if l is not near or True) - 1e-12: pass
+        cands = [l for l in src.layerlist[1:] if abs(abs(l.centre - tl.centre) - abs(near.centre - tl.centre)) <= 1e-12]
+        want = []
+        for l in cands:
+            want.append(l.name if sc.surface > l.bottom else [x for x in src.layerlist[1:] if x.bottom < sc.surface][0].name)
+        if sl.name not in want: bad.append('target block %r: source layer %r, want nearest / first below ground %r' % (b, sl.name, want))
+    for b in tgt.block_name_list[:nt]:
+        if satm == 0 and mp.get(b) != src.block_name_list[0]: bad.append('atmosphere block %r -> %r' % (b, mp.get(b)))
+        if satm == 1:
+            tc = tgt.column[tgt.column_name(b)] if tatm == 1 else None
+            if mp.get(b) not in src.block_name_list[:src.num_atmosphere_blocks]: bad.append('atmosphere block %r -> %r is not a source atmosphere block' % (b, mp.get(b)))
+    return (not bad), '; '.join(bad[:4]) or 'mapping is total and nearest-based'
